@@ -46,6 +46,7 @@ fixed("F22", "C15", "x.observe_on(new_thread) subscribed on behalf of an observe
 fixed("F23", "C15", "finalize racing new_observer (subscribe_on worker subscribing an interval while the downstream errors on another thread): the upstream stayed subscribed until its next item (the race is in the original tree; this probe's schedule reproduces it on the parent commit of the fix)", "regress/C15-finalize-vs-new_observer-race.json", "fix: an upstream registered while the stream is being finalized")
 fixed("F24", "C15", "timeout armed a timer while the stream was ending on another thread and never cancelled it", "regress/C15-timeout-arms-timer-while-finalizing.json", "fix: timeout cancels a timer it armed")
 fixed("F25", "C07", "group_by: emitting into the source from the callback that receives a new group self-deadlocked (group map write lock held across the downstream call)", "regress/C07-group_by-reentrant-emission-from-outer-callback.json", "fix: group_by announces a new group")
+fixed("F26", "C15", "timer(10).merge([cold<0 C>.subscribe_on(new), cold<0 E1>]).timeout(25): two items from different threads each armed a timer, the overwritten one was never cancelled (found by the thorough tier)", "regress/C15-timeout-concurrent-items-orphan-timer.json", "fix: timeout cancels a timer that is replaced")
 import os, sys
 extra = os.path.join(os.path.dirname(__file__), 'known_extra.py')
 if os.path.exists(extra):
